@@ -146,3 +146,25 @@ pub fn received_accounting_native(over: bool) -> u32 {
     assert!(r.is_ok() && super::state::verif::peek_data_recvd(&st) == 100, "duplicate data charged twice");
     1
 }
+
+/// Native replay body for the E2 query `e2_streams_received_reset` (C06 / C11): a RESET_STREAM whose
+/// final size would exceed the connection-level limit WE advertised is a FLOW_CONTROL_ERROR; an
+/// acceptable one charges the unreceived remainder and returns the unread bytes as credit.
+pub fn received_reset_native(over: bool) -> u32 {
+    use super::state::verif::{mk_streams, Scalars};
+    let mut st = mk_streams(&Scalars {
+        server: true, max_remote: [4, 4], sent_max_remote: [4, 4], allocated_remote_count: [4, 4], max_concurrent_remote_count: [4, 4],
+        max_data: 5, receive_window: 100, local_max_data: 100, sent_max_data: 100, data_recvd: 90, stream_receive_window: 1 << 16, ..Default::default()
+    });
+    let id = StreamId::new(crate::Side::Client, Dir::Uni, 0);
+    st.insert(true, id);
+    let fin = if over { 11u32 } else { 10 };
+    let r = st.received_reset(frame::ResetStream { id, error_code: VarInt::from_u32(3), final_offset: VarInt::from_u32(fin) });
+    if over {
+        assert!(r.is_err(), "RESET_STREAM beyond the advertised connection limit was accepted");
+        return 2;
+    }
+    assert!(r.is_ok(), "RESET_STREAM within the advertised connection limit was refused");
+    assert!(super::state::verif::peek_data_recvd(&st) == 100, "the unreceived remainder of a reset stream must count against the connection");
+    1
+}
